@@ -558,6 +558,11 @@ impl Pool {
             .map(|_| ())
         })
     }
+    fn collect(&mut self, u: usize) -> Outcome<()> {
+        let (pair, who) = (self.pair.clone(), user(u));
+        let app = &mut self.app;
+        guarded(move || app.execute_contract(who, pair, &p::ExecuteMsg::CollectProtocolFees {}, &[]).map(|_| ()))
+    }
     fn withdraw(&mut self, u: usize, amt: u128) -> Outcome<()> {
         let (pair, lp, who) = (self.pair.clone(), self.lp.clone(), user(u));
         let app = &mut self.app;
@@ -765,6 +770,32 @@ impl Stable2 {
                     } else {
                         mon.stat("hist_swap_outside_quantifier");
                     }
+                }
+                self.last = after;
+            }
+            ("collect", 0) => {
+                // permissionless; pending entries above the collectable minimum go to the collector. From
+                // here on the pending and the all-time ledgers differ.
+                out = self.pool.as_mut().unwrap().collect(u);
+                let after = match self.pool.as_ref().unwrap().snap() {
+                    Some(a) => a,
+                    None => {
+                        mon.check("C03", "pool_queries_answer", false, || format!("{line}: Pool / ProtocolFees / balance query failed after the operation"));
+                        return "query-failed".into();
+                    }
+                };
+                if let Outcome::Ok(_) = out {
+                    mon.stat("hist_collect_ok");
+                    if after != before {
+                        mon.stat("hist_collect_moved_fees");
+                    }
+                    // a collection takes nothing from the holders: reported reserves, supply and users as they were
+                    mon.check(
+                        "C03",
+                        "collect_leaves_reserves",
+                        after.r0 == before.r0 && after.r1 == before.r1 && after.sup == before.sup && after.users == before.users,
+                        || format!("{line}: reserves ({},{}) -> ({},{}), supply {} -> {}", before.r0, before.r1, after.r0, after.r1, before.sup, after.sup),
+                    );
                 }
                 self.last = after;
             }
@@ -1141,6 +1172,9 @@ impl Stable2 {
             }
         }
         let u = rng.below(3) as usize;
+        if rng.chance(1, 8) {
+            return Some(format!("0 0 u{u} collect"));
+        }
         match rng.below(10) {
             0..=4 => {
                 let dir = rng.below(2) as u128;
